@@ -31,6 +31,14 @@ def random_history(rng, maxlen, names, ops_kinds):
             ri = pt.handles[h][0]
             k = rng.choice(ops_kinds)
             bf = rng.choice(BF_CHOICES)
+            if k in ("M", "V", "m", "v"):
+                # interference only: mkdir / verify calls (their own results depend on the jail's state and are not compared)
+                doc = spell(pt.items(ri), plain_spelling(pt.items(ri)))
+                ops.append({"M": "M,%d,%s,-,%s,-,-,-,-" % (h, rng.choice("01"), hx(b"tgt")),
+                            "V": "V,%d,%s,%s" % (h, rng.choice("01"), hx(b"tgt")),
+                            "m": "m,%s,-,%s,-,-,-,-,%s" % (rng.choice("01"), hx(b"tgt"), hx(doc)),
+                            "v": "v,%s,%s,%s" % (rng.choice("01"), hx(b"tgt"), hx(doc))}[k])
+                continue
             if k == "O":
                 tmpl = "O,%%d,%s,0,%s,-" % (rng.choice("djy"), bf_csv(bf))
             elif k == "W":
@@ -93,6 +101,11 @@ def run(ck, rng):
     names = [b"a", b"b", b"c", b"dir", b"x y", "é".encode(), b"- z"]
     for _ in range(600 if ck.tier == "quick" else 20000):
         hs.append(random_history(rng, 60 if rng.random() < 0.2 else 14, names, ["O", "O", "W", "I", "o"]))
+    # histories in which mkdir / verify calls (which switch name validation on) and names that are no valid path
+    # elements occur between the operations that are compared
+    hostile = names + [b"x/y", b"..", b".", b"a/"]
+    for _ in range(300 if ck.tier == "quick" else 8000):
+        hs.append(random_history(rng, 24, hostile, ["O", "W", "I", "o", "M", "V", "m", "v", "M", "V"]))
     cases = ["hist " + ";".join(ops) for ops, _ in hs]
     impl, _ = run_impl(exe, cases)
     model = run_model(cases)
@@ -123,7 +136,8 @@ def run(ck, rng):
             broken = broken or (cases[hi][:1500], impl[hi][:400], model[hi][:400])
     # concurrent: groups of 2-4 histories in goroutines, repeated
     groups = []
-    idx = [i for i in range(len(hs)) if hs[i][1]]
+    # the jail (working directory) is process-wide: histories with mkdir / verify calls are not run concurrently
+    idx = [i for i in range(len(hs)) if hs[i][1] and not any(o[0] in "MVmvF" for o in hs[i][0])]
     rng.shuffle(idx)
     ng = 150 if ck.tier == "quick" else 4000
     for g in range(ng):
